@@ -205,3 +205,71 @@ def run_writer(calls, stream, writer_cls=None):
 def shape(doc):
     """Small structural fingerprint (for abstract coverage)."""
     return tuple(len(ch.get('files', ())) for ch in doc.get('changes', ()))
+
+
+# ------------------------------------------------------------------ exotic
+# Argument objects that ARE what the API asks for (a str, bytes, int, dict)
+# without being instances of the exact built-in class: subclass instances
+# (what frameworks hand around: SafeString, numpy.str_, Path-likes ...),
+# OrderedDict / dict subclasses with unsorted insertion order, tuples where
+# JSON arrays are meant. The bytes written must not depend on any of that.
+class StrSub(str):
+    __slots__ = ()
+
+
+class BytesSub(bytes):
+    __slots__ = ()
+
+
+class IntSub(int):
+    __slots__ = ()
+
+
+class DictSub(dict):
+    pass
+
+
+def exotic_json(obj, rng):
+    import collections
+    if isinstance(obj, dict):
+        keys = list(obj)
+        rng.shuffle(keys)
+        cls = rng.choice([collections.OrderedDict, DictSub, dict,
+                          collections.OrderedDict])
+        out = cls()
+        for k in keys:
+            out[StrSub(k) if rng.random() < 0.3 else k] = \
+                exotic_json(obj[k], rng)
+        return out
+    if isinstance(obj, list):
+        items = [exotic_json(v, rng) for v in obj]
+        return tuple(items) if rng.random() < 0.5 else items
+    if isinstance(obj, str) and rng.random() < 0.3:
+        return StrSub(obj)
+    if isinstance(obj, int) and not isinstance(obj, bool) and \
+            rng.random() < 0.3:
+        return IntSub(obj)
+    return obj
+
+
+def exotic_calls(calls, rng):
+    """The same calls with exotic-but-equivalent argument objects."""
+    out = []
+    for name, a, kw in calls:
+        a = list(a)
+        kw = dict(kw)
+        for k, v in list(kw.items()):
+            if type(v) is str and rng.random() < 0.6:
+                kw[k] = StrSub(v)
+            elif type(v) is int and rng.random() < 0.6:
+                kw[k] = IntSub(v)
+        if name == 'write_meta' and a:
+            a[0] = exotic_json(a[0], rng)
+        elif name == 'write_preamble' and a and type(a[0]) is str and \
+                rng.random() < 0.5:
+            a[0] = StrSub(a[0])
+        elif name == 'write_diff' and a and type(a[0]) is bytes and \
+                rng.random() < 0.5:
+            a[0] = BytesSub(a[0])
+        out.append((name, tuple(a), kw))
+    return out
